@@ -385,12 +385,22 @@ def large_tables(seed, nl, nr, vocab, maxtok, kind="tokens"):
 
     lv = [row() for _ in range(nl)]
     rv = [row() for _ in range(nr)]
-    L = pd.DataFrame({"extra": [i % 7 for i in range(nl)],
-                      "key": [2 ** 60 + 1 + 7919 * i for i in range(nl)],
+    # key style varies with the seed: 64-bit ints vs fixed-width strings, small ints on both
+    # sides (1..n: concatenations such as (1,23)/(12,3) coincide), or variable-width strings
+    style = seed % 3
+    if style == 0:
+        lkeys = [2 ** 60 + 1 + 7919 * i for i in range(nl)]
+        rkeys = pd.Series(["r%06d" % (nr - i) for i in range(nr)], dtype=object)
+    elif style == 1:
+        lkeys = list(range(1, nl + 1))
+        rkeys = list(range(nr, 0, -1))
+    else:
+        lkeys = pd.Series(["%d" % (3 * i) for i in range(nl)], dtype=object)
+        rkeys = pd.Series(["%dx" % i for i in range(nr)], dtype=object)
+    L = pd.DataFrame({"extra": [i % 7 for i in range(nl)], "key": lkeys,
                       "val": pd.Series(lv, dtype=object)})
     L.index = pd.Index([(i * 37) % (nl + 3) for i in range(nl)])
-    R = pd.DataFrame({"val": pd.Series(rv, dtype=object),
-                      "key": pd.Series(["r%06d" % (nr - i) for i in range(nr)], dtype=object)})
+    R = pd.DataFrame({"val": pd.Series(rv, dtype=object), "key": rkeys})
     R.index = pd.Index(["x%d" % (i // 2) for i in range(nr)])
     return L, R, lv, rv
 
